@@ -186,6 +186,7 @@ def main():
     ap.add_argument("--list", action="store_true")
     ap.add_argument("--jobs", type=int, default=int(os.environ.get("RXV_JOBS", "0")) or (os.cpu_count() or 4))
     ap.add_argument("--no-evidence", action="store_true")
+    ap.add_argument("--timeout", type=int, default=0, help="override every obligation's solver timeout (debugging)")
     a = ap.parse_args()
     tier = os.environ.get("VERIF_TIER") or a.tier
     if tier not in ("quick", "thorough"):
@@ -203,6 +204,8 @@ def main():
         for o in suite.OBLIGATIONS:
             print(o.get("tier", "quick"), o["name"], o.get("backend", "minisat"))
         return 0
+    if a.timeout:
+        obs = [dict(o, timeout=a.timeout) for o in obs]
     random.Random(seed).shuffle(obs)
     # heavy first
     obs.sort(key=lambda o: -o.get("weight", 1))
